@@ -87,7 +87,7 @@ impl Prop for C12 {
         let vals = kind_values(k1, &mut rng, nrand);
         // group A: representable
         let rep: Vec<(CVal, CVal)> = vals.iter().filter_map(|v| num_of(v).and_then(|n| representable(&n, k2)).map(|e| (v.clone(), e))).collect();
-        if !rep.is_empty() { let cell = format!("from={};to={};group=representable", k1, k2); out.push(Case { id: cell.clone(), cell, input: json!({"mode": "scalar", "to": k2, "pairs": rep.iter().map(|(v, e)| json!({"v": v, "allowed": [e]})).collect::<Vec<_>>()}) }); }
+        if !rep.is_empty() { for opt in [false, true] { let cell = format!("from={};to={};group=representable{}", k1, k2, if opt { ";form=option" } else { "" }); out.push(Case { id: cell.clone(), cell, input: json!({"mode": "scalar", "to": k2, "opt": opt, "pairs": rep.iter().map(|(v, e)| json!({"v": v, "allowed": [e]})).collect::<Vec<_>>()}) }); } }
         // group B: float -> int
         if is_float(k1) && is_int(k2) {
           let pairs: Vec<J> = vals.iter().map(|v| { let x = match num_of(v) { Some(Num::Flt(x)) => x, _ => 0.0 }; json!({"v": v, "allowed": float_to_int(x, k2), "nan": x.is_nan()}) }).collect();
@@ -114,7 +114,19 @@ impl Prop for C12 {
       if !take || (r, c) == (r2, c2) { continue; }
       let k = *rng.pick(&["f64", "f64", "u8", "i64", "string", "bool", "r64"]);
       let cell = format!("reshape;kind={};from={}x{};to={}x{};{}", k, r, c, r2, c2, if equal { "equal" } else { "unequal" });
-      out.push(Case { id: cell.clone(), cell, input: json!({"mode": "reshape", "kind": k, "m": super::c03::index_matrix(k, *r, *c, 0), "r2": r2, "c2": c2, "equal": equal}) });
+      out.push(Case { id: cell.clone(), cell: cell.clone(), input: json!({"mode": "reshape", "kind": k, "m": super::c03::index_matrix(k, *r, *c, 0), "r2": r2, "c2": c2, "equal": equal}) });
+      // the same reshape through the wildcard element kind <[*]:r,c>
+      if rng.chance(1, 3) { let wc = format!("{};form=wildcard", cell); out.push(Case { id: wc.clone(), cell: wc, input: json!({"mode": "reshape", "kind": k, "wild": true, "m": super::c03::index_matrix(k, *r, *c, 0), "r2": r2, "c2": c2, "equal": equal}) }); }
+    } }
+    // matrix -> set of ANOTHER kind: the elements are the scalar conversions of the distinct elements (integer kinds, boundary values)
+    for k1 in ["u8", "u16", "u32", "u64", "i8", "i16", "i32", "i64"] { for k2 in ["u8", "u16", "u32", "u64", "i8", "i16", "i32", "i64", "f64"] {
+      if k1 == k2 { continue; }
+      let mut rng = Rng::keyed(seed, &format!("c12setconv{}{}", k1, k2));
+      let vals: Vec<CVal> = kind_values(k1, &mut rng, 4).into_iter().filter(|v| num_of(v).and_then(|n| representable(&n, k2)).is_some()).collect();
+      if vals.len() < 2 { continue; }
+      let e: Vec<CVal> = (0..6).map(|i| vals[i % vals.len()].clone()).collect();
+      let cell = format!("toset-convert;from={};to={}", k1, k2);
+      out.push(Case { id: cell.clone(), cell, input: json!({"mode": "toset-convert", "to": k2, "m": CVal::M(k1.to_string(), 1, 6, e)}) });
     } }
     // matrix -> set
     for k in ["f64", "u8", "i64", "string", "bool", "r64", "u64", "f32"] {
@@ -144,7 +156,8 @@ impl Prop for C12 {
           let allowed: Vec<CVal> = serde_json::from_value(p["allowed"].clone()).unwrap();
           let nan = p.get("nan").and_then(|x| x.as_bool()).unwrap_or(false);
           let mut s = Sess::new(); s.bind("x", &v, false);
-          let res = s.eval(&format!("y<{}> := x", annot(k2)));
+          let opt = case.input.get("opt").and_then(|o| o.as_bool()).unwrap_or(false);
+          let res = s.eval(&format!("y<{}{}> := x", annot(k2), if opt { "?" } else { "" }));
           match res {
             Ev::Ok(got) => { compared += 1; if !allowed.contains(&got) { let class = if case.cell.contains("float-to-int") { "float-to-int-not-trunc-clamp" } else { "representable-value-changed" }; return Outcome::violated(class, format!("y<{}> := x with x = {} gave {} expected {}", k2, v.show(), got.show(), allowed[0].show())); } }
             Ev::Err(kind, msg) => { errs += 1; if nan { continue; } if first_err.is_none() { first_err = Some(Outcome::violated("error-instead-of-value", format!("y<{}> := x with x = {} failed: {} {}", k2, v.show(), kind, msg.chars().take(100).collect::<String>()))); } }
@@ -190,7 +203,8 @@ impl Prop for C12 {
         let equal = case.input["equal"].as_bool().unwrap();
         let mut s = Sess::new(); s.bind("m", &m, false);
         let before = s.snapshot();
-        let res = s.eval(&format!("n<[{}]:{},{}> := m", k, r2, c2));
+        let wild = case.input.get("wild").and_then(|w| w.as_bool()).unwrap_or(false);
+        let res = s.eval(&format!("n<[{}]:{},{}> := m", if wild { "*" } else { k }, r2, c2));
         match res {
           Ev::Ok(got) => {
             if !equal { return Outcome::violated("value-instead-of-error", format!("reshaping {} to {}x{} gave {}", m.show(), r2, c2, got.show())); }
@@ -200,6 +214,21 @@ impl Prop for C12 {
             Outcome::held()
           }
           Ev::Err(kind, msg) => if equal { Outcome::violated("error-instead-of-value", format!("reshaping {} to {}x{} failed: {} {}", m.show(), r2, c2, kind, msg.chars().take(80).collect::<String>())) } else { if s.snapshot() != before { Outcome::violated("changed-after-error", "failed reshape changed symbols".into()) } else { Outcome::held() } },
+          Ev::Panic(p) => Outcome::violated("panic-escaped", p),
+          Ev::ParseErr(p) => Outcome::inconclusive("harness-parse", p),
+        }
+      }
+      "toset-convert" => {
+        let k2 = case.input["to"].as_str().unwrap();
+        let m: CVal = serde_json::from_value(case.input["m"].clone()).unwrap();
+        let mut want: Vec<CVal> = Vec::new();
+        for e in m.elems() { let mut t = Sess::new(); t.bind("x", &e, false); match t.eval(&format!("y<{}> := x", annot(k2))) { Ev::Ok(v) => want.push(v), _ => return Outcome::trivial().tag("scalar-conversion-unsupported") } }
+        want.sort(); want.dedup();
+        let mut s = Sess::new(); s.bind("m", &m, false);
+        match s.eval(&format!("u<{{{}}}> := m", annot(k2))) {
+          Ev::Ok(CVal::Set(_, n, e)) => { if e != want { return Outcome::violated("set-differs-from-scalar-conversions", format!("u<{{{}}}> := {} gave {{{}}} but the scalar conversions of its elements are {{{}}}", k2, m.show(), e.iter().map(|x| x.show()).collect::<Vec<_>>().join(","), want.iter().map(|x| x.show()).collect::<Vec<_>>().join(","))); } if n != want.len() { return Outcome::violated("set-size-wrong", format!("declared size {} but {} elements", n, want.len())); } Outcome::held() }
+          Ev::Ok(o) => Outcome::violated("not-a-set", format!("u<{{{}}}> := {} gave {}", k2, m.show(), o.show())),
+          Ev::Err(..) => Outcome::trivial().tag("set-conversion-unsupported"),
           Ev::Panic(p) => Outcome::violated("panic-escaped", p),
           Ev::ParseErr(p) => Outcome::inconclusive("harness-parse", p),
         }
